@@ -45,6 +45,17 @@ where
     }
 }
 
+/// Would a type called `rust_name` in `own_module` be defined in terms of itself? A type of the same name in another
+/// module (namespace) is a different type.
+pub(crate) fn is_same_type(rust_type: &RustFieldType, rust_name: &str, own_module: Option<&str>) -> bool {
+    match rust_type {
+        RustFieldType::Other(other) => {
+            other.name == rust_name && (other.module.is_none() || other.module.as_deref() == own_module)
+        }
+        _ => false,
+    }
+}
+
 fn write_simple_type<W>(writer: &mut W, props: &SimpleProps) -> WriterResult<()>
 where
     W: io::Write,
@@ -58,11 +69,10 @@ where
     } = &props;
 
     let rust_name = xml_name_to_rust_name(xml_name);
-    if let Some(segment) = rust_type.to_string().split(':').next_back() {
-        if segment == rust_name {
-            // NOOP
-            return Ok(());
-        }
+    let own_module = target_namespace.as_ref().map(|ns| ns.rust_mod_name.as_str());
+    if is_same_type(rust_type, &rust_name, own_module) {
+        // NOOP
+        return Ok(());
     }
 
     // for now, write this as a type alias; we may want to change this to a newtype
